@@ -272,7 +272,13 @@ func (g *gstate) genValue(typ reflect.Type, d int) reflect.Value {
 			ID: [3]uint64{rapid.Uint64().Draw(g.t, "id0"), rapid.Uint64().Draw(g.t, "id1"), rapid.Uint64().Draw(g.t, "id2")}}))
 		return v
 	case reflect.TypeOf(VMarsh{}):
-		v.Set(reflect.ValueOf(VMarsh{ID: rapid.Uint32().Draw(g.t, "mid"), Note: rapid.StringN(0, 10, 30).Draw(g.t, "note")}))
+		note := rapid.StringN(0, 10, 30).Draw(g.t, "note")
+		// a marshaler that writes more than the encoder's buffer holds at that moment (the
+		// buffer grows in 4096-byte steps): the length prefix must land in the grown buffer
+		if n := rapid.SampledFrom([]int{0, 0, 0, 0, 0, 0, 3000, 4090, 5000, 9000, 70000}).Draw(g.t, "big-note"); n > 0 {
+			note = strings.Repeat("m", n) + note
+		}
+		v.Set(reflect.ValueOf(VMarsh{ID: rapid.Uint32().Draw(g.t, "mid"), Note: note}))
 		return v
 	case reflect.TypeOf(VBin{}):
 		// VBin.R is always non-nil after UnmarshalBinary; generate the canonical form
